@@ -397,7 +397,7 @@ static std::string run_pw(const std::string &line, std::string &oracle)
 }
 
 // ------------------------------------------------------------------ run
-std::string hx_run(const std::string &line, std::string &oracle)
+static std::string hx_run_inner(const std::string &line, std::string &oracle)
 {
     std::vector<std::string> w = split(line, ' ');
     if (!w.empty() && w[0] == "upoly")
@@ -414,24 +414,8 @@ std::string hx_run(const std::string &line, std::string &oracle)
     B e = vsexp::parse(rest);
     RCP<const Symbol> x = symbol(xname);
 
-    B r1, r0;
-    try {
-        r1 = diff(e, x, true);
-        r0 = diff(e, x, false);
-    } catch (const SymEngine::VerifAssertError &ex) {
-        std::string what = ex.what();
-        if (what.find("not is_a<Add>(*self)") != std::string::npos) {
-            // DiffVisitor::bvisit(const Add &) hands an Add to Add::as_coef_term (docs/C10.md, D-C10-3)
-            oracle = "FAIL:diff-add-nested:" + what;
-            return "E:Assert";
-        }
-        if (what.find("is_canonical(") != std::string::npos) {
-            // a canonical-form check inside add/mul/pow/Derivative constructors: left to C03
-            stat("assert_is_canonical_in_constructor_ignored");
-            return "E:Assert";
-        }
-        throw;
-    }
+    B r1 = diff(e, x, true);
+    B r0 = diff(e, x, false);
     B R = cache ? r1 : r0;
     std::string out = vsexp::dump(R);
     if (!eq(*r1, *r0)) {
@@ -449,6 +433,26 @@ std::string hx_run(const std::string &line, std::string &oracle)
     }
     value_oracle(e, xname, R, line, oracle);
     return out;
+}
+
+std::string hx_run(const std::string &line, std::string &oracle)
+{
+    try {
+        return hx_run_inner(line, oracle);
+    } catch (const SymEngine::VerifAssertError &ex) {
+        std::string what = ex.what();
+        if (what.find("not is_a<Add>(*self)") != std::string::npos) {
+            // DiffVisitor::bvisit(const Add &) hands an Add to Add::as_coef_term (docs/C10.md, D-C10-3)
+            oracle = "FAIL:diff-add-nested:" + what;
+            return "E:Assert";
+        }
+        if (what.find("is_canonical(") != std::string::npos) {
+            // a canonical-form check inside add/mul/pow/Derivative constructors: left to C03
+            stat("assert_is_canonical_in_constructor_ignored");
+            return "E:Assert";
+        }
+        throw;
+    }
 }
 
 // ------------------------------------------------------------------ generator (c10_gen.h)
